@@ -53,7 +53,7 @@ void ascon_add_bytes
     uint64_t value;
     unsigned posn, shift, ofs, len;
     ofs = offset & 7U;
-    if (ofs != 0U) {
+    if (ofs != 0U && size > 0U) {
         shift = (7U - ofs) * 8U;
         len = 8U - ofs;
         value = 0;
